@@ -732,6 +732,47 @@ func TranscodeByLabel(label string, raw string) string {
 	return sb.String()
 }
 
+// DecodeWordsByLabel is DecodeWords for a reader that honours the charset label of every encoded-word
+// (see TranscodeByLabel); labels lists the labels met.
+func DecodeWordsByLabel(s string) (out string, labels []string) {
+	var sb strings.Builder
+	i := 0
+	lastWasEW := false
+	pendingWS := ""
+	for i < len(s) {
+		if s[i] == ' ' || s[i] == '\t' {
+			j := i
+			for j < len(s) && (s[j] == ' ' || s[j] == '\t') {
+				j++
+			}
+			pendingWS = s[i:j]
+			i = j
+			continue
+		}
+		j := i
+		for j < len(s) && s[j] != ' ' && s[j] != '\t' {
+			j++
+		}
+		word := s[i:j]
+		if dec, ok, _ := decodeOneOrMoreEW(word); ok {
+			if !lastWasEW {
+				sb.WriteString(pendingWS)
+			}
+			sb.WriteString(TranscodeByLabel(ewLabel(word), dec))
+			labels = append(labels, ewLabel(word))
+			lastWasEW = true
+		} else {
+			sb.WriteString(pendingWS)
+			sb.WriteString(word)
+			lastWasEW = false
+		}
+		pendingWS = ""
+		i = j
+	}
+	sb.WriteString(pendingWS)
+	return sb.String(), labels
+}
+
 // ewLabel returns the charset label of a token that is one encoded-word ("" otherwise).
 func ewLabel(w string) string {
 	if !strings.HasPrefix(w, "=?") || !strings.HasSuffix(w, "?=") {
